@@ -566,12 +566,18 @@ def transition_oracles(desc, i, st, full, feed, stats):
 
 
 def _acq_of(full, leaves):
-    """Acquisition answers (qubit, tag, per-qubit index, circuit-level index) of the measurements among the listed
-    leaves (None = all), and whether the circuit has measurements elsewhere."""
+    """Acquisition answers (qubit, tag, per-qubit index) of the measurements among the listed leaves (None = all), and
+    whether the circuit has measurements elsewhere - in an order-free form: the listing order among simultaneous
+    measurements is not fixed by any property (a copy may list a tie the other way round), so neither is which of
+    them gets which index; whether a measurement resolves at all (-1) and which indices a qubit hands out is."""
     acq = full.get("ACQ")
     if not isinstance(acq, dict) or "m" not in acq:
         return None, None
-    inside = sorted([m[1], m[2], m[3], m[4]] for m in acq["m"] if leaves is None or m[0] in leaves)
+    mine = [m for m in acq["m"] if leaves is None or m[0] in leaves]
+    # order-free: which (qubit, tag) resolve, and the set of per-qubit indices handed out per qubit (overlapping
+    # measurements of one qubit are a tie too)
+    inside = [sorted([m[1], m[2], m[3] >= 0] for m in mine),
+              sorted([q, sorted(m[3] for m in mine if m[1] == q)] for q in {m[1] for m in mine})]
     others = any(leaves is not None and m[0] not in leaves for m in acq["m"])
     return inside, others
 
